@@ -157,7 +157,10 @@ def c03_race_jobs(tier, modes=(0, 1, 2, 3), per_mode=2):
         for k in range(per_mode if q else per_mode * 2):
             out.append({"variant": "os-debug" if k % 2 == 0 else "os-release", "family": "c03r", "batch": m + 4 * k, "nbatch": 16, "env": {},
                         "opts": {"rounds": 60000 if q else 1500000}, "timeout": 3000})
-    out.append({"variant": "inproc-debug", "family": "c03r", "batch": modes[0], "nbatch": 16, "env": {}, "opts": {"rounds": 20000 if q else 100000}, "timeout": 3000})
+    # the in-process transport: one batch per observer (a receiver-set member is added while its
+    # peer's first message is on its way)
+    for m in modes:
+        out.append({"variant": "inproc-debug", "family": "c03r", "batch": m, "nbatch": 16, "env": {}, "opts": {"rounds": 60000 if q else 400000}, "timeout": 3000})
     return out
 
 
@@ -247,7 +250,7 @@ def c06_plan(tier, seed):
     q = tier == "quick"
     out = jobs("os-debug", "c06", 12 if q else 32, c06_env, {"cases": 30 if q else 600}, timeout=3000)
     out += jobs("inproc-debug", "c06", 3 if q else 8, None, {"cases": 30 if q else 600}, timeout=3000)
-    out += [j for j in c03_race_jobs(tier, modes=(1,), per_mode=2) if j["variant"] != "inproc-debug"]
+    out += c03_race_jobs(tier, modes=(1,), per_mode=2)
     return out
 
 
